@@ -12,8 +12,8 @@ import heapgen
 import vlib
 
 MAX_DEATHS = 4            # per shard
-CASE_TIMEOUT = 10          # seconds for one input (all entry points) when run alone
-SLOW_MS = 20000
+CASE_TIMEOUT = 45          # seconds for one input (all entry points) when run alone
+SLOW_MS = 40000
 
 
 def run_shard(exe, cases, timeout):
@@ -105,6 +105,7 @@ def run(ctx):
     inputs = corpus + inputs
     results = run_all(exe, [x for _k, x in inputs])
     hist, outcomes = {}, {}
+    max_ms = 0
     findings = {}
     returned = 0
     for (kind, x), r in zip(inputs, results):
@@ -115,6 +116,9 @@ def run(ctx):
                 outcomes[ch] = outcomes.get(ch, 0) + 1
             if 'R' in letters:
                 returned += 1
+            t_ = r.split()
+            if len(t_) > 2 and t_[2].startswith('ms='):
+                max_ms = max(max_ms, int(t_[2][3:]))
         j = judge(r)
         if j:
             findings.setdefault(j[0], (x, j[1], r))
@@ -125,7 +129,7 @@ def run(ctx):
         small = x
         step = max(1, len(small) // 2)
         tries = 0
-        limit = 20 if tag == 'hang' else 60
+        limit = 6 if tag == 'hang' else 60
         while step >= 1 and tries < limit:
             i = 0
             changed = False
@@ -151,7 +155,7 @@ def run(ctx):
                              'inputs up to 64 KiB; for each input: parseXml with the four option sets, parseFrameHeader, '
                              'parseXml with the parsed header and with a total and a local header x 3 option sets; '
                              'non-trivial = inputs for which some call returned a document',
-                        input_distribution=hist, outcome_letters=outcomes, samples=[inputs[len(corpus)][1][:200].decode('latin1')],
+                        input_distribution=hist, outcome_letters=outcomes, slowest_input_ms=max_ms, samples=[inputs[len(corpus)][1][:200].decode('latin1')],
                         exhaustive=False, translator=tr_stats.get('NavGen.v', {}),
                         explanation='memory safety and undefined behaviour are observed, not proved: ASan+UBSan build, '
                                     '-fno-sanitize-recover; termination of the node searches is proved on the model')
